@@ -100,9 +100,20 @@ def replay(cfg, history, always_consistent=False):
 # observation through the public API
 
 
+LIVE = [False]
+
+
 def _read(iso, **kw):
     out = io.BytesIO()
-    iso.get_file_from_iso_fp(out, **kw)
+    try:
+        iso.get_file_from_iso_fp(out, **kw)
+    except env.InvalidInput as e:
+        # The ISO9660/Joliet placeholder of a symbolic link has no data object until the image is written and
+        # reopened; on the editing object reading it is refused instead of returning b''.  Tolerated (no clause
+        # speaks about it); the b'' is still compared with the model, so a real file that lost its data shows.
+        if LIVE[0] and 'without data' in str(e):
+            return b''
+        raise
     return out.getvalue()
 
 
